@@ -66,6 +66,18 @@ CHECKS = [
   "explicit-state BFS from 'V0 loaded' (depth 4-5; thorough 5-7) over histories of {load(Vi) for 10 versions of one file: identical, comment appended, declaration moved, kind / value type / keys changed, syntax error, name clashing with another program, body-only edit; lines creating label sets, one with an old stamp and pending expiry, marking expiry; Store.Gc; unload}, with and without a second program, and with OmitMetricSource: identical source changes neither store nor VM identity; a failed load leaves store and VM untouched and stays invisible in every continuation (differential: same history without the failed loads); a kept declaration keeps label sets, values and expiry marks; no two registered metrics of the program share a name and a label set",
   "default schedule with quiescence barriers (reload racing a line in flight is C20); export observed as the store contents registered for the program; state key includes a reflective dump of the Runtime object graph",
   "explicit-state model checking of the implementation (multi-process BFS, replay from the initial state, invariants + differential oracle)", "§3 C14"),
+ ("C16", "hsx", "model_checking",
+  "all applicable histories of length <=5 (pre-existing content: 4; thorough 6/5) over {append line, append fragment, append CRLF line, truncate, rename+create, copy+truncate, delete, recreate, poll} on a real file (tmpfs) tailed through the real Tailer and fileStream under the controlled scheduler, the tailer observing every step (stream wake, pattern poll, stream wake, each to quiescence); list model: delivered = lines appended after tailing began, in order, once each; a fragment pending when its generation ends is delivered once on its own; checked after the last step and after stopping the tailer",
+  "default schedule only (the property fixes the observation order); no state merging because the reader's buffer is a goroutine local; harness wakers replace the poll timers",
+  "explicit-state exploration of the implementation over operation histories on a real file system (multi-process BFS, replay from the initial state, list reference model)", "§3 C16"),
+ ("C18", "hsx", "model_checking",
+  "all applicable histories of length <=4 (thorough 5) over {create, delete, append unique line, rename x3, mkdir/rmdir of a plain and of a pattern-matching directory name, poll} on the tree {d/a.log, d/b.log, d/a.log.gz, d/sub/c.log, d/x.log/} for 4 (thorough 6) pattern/ignore configurations (single glob, overlapping globs, relative+absolute spelling, nested+flat with ignore regex) through the real Tailer under the controlled scheduler; after every step: set of paths with a stream (read in-package) = existing regular files matching a pattern and not ignored, log_count agrees, every line appended to a tailed path delivered exactly once",
+  "renames onto an existing file are rotations (C16) and not generated; unreadable files and symlinks not generated; no state merging",
+  "explicit-state exploration of the implementation over file-system histories (multi-process BFS, replay from the initial state, set reference model)", "§3 C18"),
+ ("C26", "hsx", "model_checking",
+  "explicit-state BFS (depth 3; thorough 4-5) over histories of {write(file, contents T1/T2/broken), remove, rename to/from another program name / a non-.mtail name / a dot-name, mkdir of a matching name} on a real program directory holding a.mtail, b.mtail, .h.mtail, notes.txt, sub/c.mtail, each step followed by LoadAllPrograms and a probe line on the real Runtime under the controlled scheduler; per transition: running set and the contents each program was compiled from equal the model, the probe line moves exactly the marker counter of each running version, prog_loads_total / prog_unloads_total move by the model's event counts",
+  "LoadAllPrograms is called directly (as the SIGHUP handler does); states de-duplicated on the model plus a reflective dump of the Runtime object graph",
+  "explicit-state model checking of the implementation over directory histories (multi-process BFS, replay from the initial state, map reference model)", "§3 C26"),
 ]
 
 ENGINES = [
